@@ -130,24 +130,34 @@ def ixn_brief(x):
 # ------------------------------------------------------------------ the check
 
 def run(ctx):
+    import time
+    t0 = time.time()
+    phases = {}
     info, ok = vlib.proof_stage(ctx, PROP_FILE, ["Run/C14.v"])
+    phases["proof_stage"] = round(time.time() - t0, 1)
     cov = dict(info)
     cov["trusted_base"] = vlib.STD_TRUSTED + [
         "Section hypothesis of Properties/C14.v about the regex engine (Envoy safe_regex = RE2): an alternation of valid HTTP method names fully matches exactly its members; user-supplied path/header regexes are an uninterpreted function shared by evaluator and specification",
         "the SPIFFE patterns the code builds are modelled segment-wise (host, path segments; in spliced text '.' matches any character, every other character itself; [^/]+ = a non-empty segment); the emitted regex STRING is compared with the implementation's on every case, and its meaning is tied to RE2 by the Go oracle (Go regexp, fully anchored) and by sampled evaluation points replayed in Coq",
         "connection model: URI SAN of the client certificate and URI of the first x-forwarded-client-cert element; trust domains are authenticated by TLS (hosts_ok hypothesis); on HTTP listeners that expect peered traffic a peer identity is only established by the local mesh gateway (mirrors makeRBACRules' expectXFCC)",
         "reference semantics of the Go oracle: consul's own IntentionPrecedenceSorter and connect.IntentionMatch, cross-checked on every case against state.Store.IntentionDecision; first matching permission decides, no match falls to the default policy (service-intentions documentation)",
+        "sort.Sort(IntentionPrecedenceSorter) is modelled as a stable insertion sort (Go's pdqsort IS an insertion sort up to 12 elements; lists a store hands over have no comparator ties, so any sort gives the same order)",
         "modelled, not verified: JWT requirements (providerMap = nil); sameness groups (expanded before); enterprise namespaces/partitions are in the model but the community-edition build only exercises 'default'; wildcard partition/peer panics; Envoy itself (the evaluator follows the RBAC filter's documented semantics)"]
     assumptions = ["regex engine on method alternations", "segment-wise reading of built SPIFFE patterns", "TLS authenticates trust domains"]
     if not ok:
         cov.update({"evaluations": 0, "distinct_nontrivial": 0, "rule": "proof stage failed", "samples": []})
         return ctx.finish(cov, assumptions)
 
+    t1 = time.time()
     binp = vlib.go_build("rbac")
+    phases["go_build"] = round(time.time() - t1, 1)
+    t1 = time.time()
     out = os.path.join(ctx.workdir, "cases.jsonl")
     rc, o = vlib.sh([binp, "-seed", str(ctx.seed), "-tier", ctx.tier, "-out", out, "-jobs", "6"], timeout=3000)
     if rc != 0:
         raise vlib.BuildError("harness run failed: " + o[-2000:])
+    phases["implementation_and_oracle"] = round(time.time() - t1, 1)
+    t1 = time.time()
 
     tab = []
     kinds = collections.Counter()
@@ -192,7 +202,11 @@ def run(ctx):
     # ---- model vs implementation, inside Coq ----
     shards = [coq_cases[k:k + PER_SHARD] for k in range(0, len(coq_cases), PER_SHARD)]
     texts = [shard_text(s, tab if k == 0 else []) for k, s in enumerate(shards)]
+    phases["parse_and_write_cases"] = round(time.time() - t1, 1)
+    t1 = time.time()
     res = vlib.coq_run_shards(PROP, texts, timeout=1500, jobs=6)
+    phases["coq_shards"] = round(time.time() - t1, 1)
+    vlib.log("C14 phases: %s" % phases)
     mism, tab_fail = [], []
     for s, (okk, idx, raw) in zip(shards, res):
         if not okk:
@@ -257,6 +271,8 @@ def run(ctx):
         "oracle_failing_classes_known": dict(known_hits),
         "oracle_failing_classes_unknown": len(seen_sig),
         "harness_self_check_failures": len(problems),
+        "phase_wall_s": phases,
+        "coq_shards": len(shards),
         "case_kinds": dict(kinds),
         "intention_list_sizes": {str(k): v for k, v in sorted(sizes.items())},
         "input_shape": dict(shape),
